@@ -86,6 +86,12 @@ OUTSIDE = {
     "C14-29": "the facade picks the group entry of a service-action command by the service action it lists when a private table spells the entries with T10 names: every shipped table and every table built with the shipped keys gives the old result; which command a facade method sends on a caller-built table is C13's statement, and C13 catches it",
     "C17-28": "four shipped tables share one PERSISTENT RESERVE IN / OUT OpCode object: every request on an unedited table is refused or accepted as before; shared table entries are C14's and 'one enumeration never affects another' C18's statement, and both catch it",
     "C19-27": "SCSIDevice.close() forgets file and inode, so the first command on a *released* device re-opens the node: every lifecycle that uses a device between open and close is unchanged; use after release is outside C15's sequences (execute ... then close) and C19's requests, and the unchanged library does the same thing after a replug (a monitor demanding 'no descriptor after a command on a released device' raised an alarm on the unchanged tree and was withdrawn, section 11)",
+    "C05-30": "build_cdb fills the CDB the constructor allocated instead of a new one, so a second build on the same command object XORs onto the first: every constructed command, for any parameter dictionary, is byte-identical; 'repeating a build on the same object gives the same bytes' is C02's observation (and C01 / C03 rebuild too), and all three catch it",
+    "C08-30": "SCSI.raw_sense() is a context manager without try/finally, so an ATA pass-through that raised leaves raw-sense capture switched on for the facade: conditions that are built are built and printed as before; 'a CHECK CONDITION surfaces unless the caller asked for raw sense' is C07's statement, and C07 catches it (binding errors followed by conditions in one session)",
+    "C12-30": "the iSCSI transport announces the transfer length the command was constructed with instead of the size of the buffer it carries: every history C12 plays writes blocks without protection information; 'the buffers match the transfer the CDB announces, on both transports' is C03's statement, and C03 catches it (WRITE with protection information)",
+    "C13-30": "SCSIDevice resolves the device path once, at construction (realpath): each facade call still sends one command built from its arguments; 'commands go through a handle to the node that is at the path now' is C15's statement, and C15 catches it (links that are re-pointed)",
+    "C14-30": "PERSISTENT RESERVE OUT with REGISTER AND IGNORE EXISTING KEY *and* SPEC_I_PT=1 *and* TransportIDs goes out with service action 00h: SPC-4 6.16.3 allows SPEC_I_PT with REGISTER only (any other service action is terminated with INVALID FIELD IN PARAMETER LIST), so the request is outside C05's valid dictionaries and C01's arguments; the table values C14 walks are unchanged",
+    "C16-30": "SCSIDevice.open() returns at once when the device is open, so a caller who handles replugs himself (detection off) keeps the descriptor of the pulled unit: the command set selected for the INQUIRY data that comes back is the right one; 'the handle is on the node at the path' is C15's statement, and C15 catches it (the caller's own open())",
 }
 
 
